@@ -27,7 +27,7 @@ EXPECTED_PROBES = ['m_repeat', 'm_repeat_limit_hit', 'm_run_if_false', 'm_run_if
 
 PROF = gen.profile(max_nodes=6, max_depth=2, w_phase=12, w_group=2, w_subtest=3, w_branch=0, w_ckpt_fail=0,
                    w_ckpt_diag=0, w_seq=0, p_opts=650, p_fault_beh=450, p_meas=500, p_diag=450, p_timeout=120,
-                   p_teardown_repeat=1000, p_settings=150, p_profile=100)
+                   p_teardown_repeat=1000, p_settings=150, p_profile=100, p_monitor=200)
 
 
 def setup():
